@@ -9,7 +9,8 @@
 //	          Afterwards a Retrieve must miss, or hit with every file complete.
 //	retrieve: the HTTP response body is cut at EVERY byte offset (connection aborted, or a short but well-formed
 //	          response); the retrieve command's output is cut at every tar block boundary (+-1) and the command exits
-//	          non-zero. The Retrieve must report a miss (or, if it reports a hit, every file must be complete).
+//	          non-zero, or exits 0 although the transfer was short (a pipeline whose last stage succeeds).
+//	          The Retrieve must report a miss (or, if it reports a hit, every file must be complete).
 package main
 
 import (
@@ -42,7 +43,7 @@ type Case struct {
 	Phase string     `json:"phase"` // store | retrieve
 	Tree  *tree.Node `json:"tree"`  // contents of the target's output directory
 	Decl  string     `json:"decl"`  // top: root entries are the outputs; leaf: every leaf path is an output
-	Fault string     `json:"fault"` // none | output-missing | file-unreadable | dir-unreadable | put-cut | command-fails | body-aborted | body-short | output-cut-exit1
+	Fault string     `json:"fault"` // none | output-missing | file-unreadable | dir-unreadable | put-cut | command-fails | body-aborted | body-short | output-cut-exit1 | output-cut-exit0
 	Pos   string     `json:"pos,omitempty"`
 	Off   int        `json:"off,omitempty"`
 	Got   *tree.Node `json:"got,omitempty"`
@@ -393,6 +394,9 @@ func runCase(c Case) (class, detail string, got *tree.Node) {
 		srv.getMode, srv.getOff = c.Fault, c.Off
 	case "output-cut-exit1":
 		retrieveCmd = fmt.Sprintf("head -c %d %s; exit 1", c.Off, sq(kf))
+	case "output-cut-exit0":
+		// the transfer ends early but the last stage of the command succeeds (a pipeline, a backend serving a short object)
+		retrieveCmd = fmt.Sprintf("head -c %d %s", c.Off, sq(kf))
 	default:
 		lib.Fatal("unknown retrieve fault %q", c.Fault)
 	}
@@ -469,7 +473,7 @@ func main() {
 		"an output 'cannot be read' = it does not exist any more, or open/readdir fails with EACCES (mode 000; the Store call runs with effective uid nobody because the harness is root); read errors in the middle of a file are not injected (no seam on reads)",
 		"HTTP retries are disabled (HTTPRetry=0; retry waits are >= 1 s); the client buffers the whole body before sending, so a cut PUT connection never leaves an entry in this server model",
 		"after a faulted store: a miss, or a hit whose restored tree equals the declared outputs (entries, kinds, bytes, symlink targets). After a faulted retrieve: a miss (anything may be left in the output directory), or - HTTP only - a hit with the complete tree (a cut inside the gzip trailer loses nothing)",
-		"a retrieve command that exits 0 after a truncated output is not a reported failure and is not explored",
+		"a retrieve command whose output ends early but which exits 0 (output-cut-exit0) must give a miss or a hit with the complete tree, like a short HTTP response",
 	}
 	if !isRoot {
 		r.Assume = append(r.Assume, "harness not running as root: mode 000 is enforced directly")
@@ -633,6 +637,7 @@ func main() {
 				}
 				before := evals
 				run(Case{Cache: "cmd", Phase: "retrieve", Tree: t, Decl: "top", Fault: "output-cut-exit1", Off: off})
+				run(Case{Cache: "cmd", Phase: "retrieve", Tree: t, Decl: "top", Fault: "output-cut-exit0", Off: off})
 				if evals == before {
 					stop = true
 					break
